@@ -843,6 +843,63 @@ theorem prefetch_excludes_barred (P : Params) (cfg : List Key) (d : Disk) (live 
         | cons a b => rfl
       simpa [this] using hrun
 
+/-! ## every accepted refresh is recorded; an aborted hold-down does not survive -/
+
+/-- **accepted_refresh_rewrites_state.** Every accepted refresh — however
+uneventful — replaces the state file (unless that write fails): what the run
+decided, including the abort of a hold-down, reaches the disk it is re-read
+from at the next refresh. -/
+theorem accepted_refresh_rewrites_state (P : Params) (cfg : List Key) (d : Disk) (live : List Key)
+    (f : Option Fetch) (fl : Faults) (now : Nat)
+    (hacc : (autoTA P cfg d live f fl now).auth ≠ .none) (hw : fl.stateWrite = false) :
+    ∃ tas, Write.state tas ∈ (autoTA P cfg d live f fl now).writes ∧
+      ∀ ta ∈ tas, ta ∈ (autoTA P cfg d live f fl now).curFinal := by
+  rcases autoTA_inv P cfg d live f fl now with ⟨_, _, ha, _⟩ | ⟨tomb0, f', a, _, _, _, _, heq⟩
+  · exact absurd ha hacc
+  · rw [heq, finish_writes]
+    refine ⟨_, ?_, fun ta hta => final_sub fl _ ta hta⟩
+    simp [hw]
+
+/-- **pending_survives_only_if_present.** After a fully authenticated refresh
+no entry is left Pending unless its key tag is in the fetched set: a pending
+key that the accepted set omits is deleted (and with
+`accepted_refresh_rewrites_state` the deletion is what the state file holds),
+so its hold-down starts afresh when it is published again. -/
+theorem pending_survives_only_if_present (P : Params) (cfg : List Key) (d : Disk) (live : List Key)
+    (f : Fetch) (fl : Faults) (now : Nat)
+    (hfull : (autoTA P cfg d live (some f) fl now).auth = .full) :
+    ∀ ta ∈ (autoTA P cfg d live (some f) fl now).curFinal, ta.st = .addPend → ta.key.tag ∈ fetchedTags f := by
+  rcases autoTA_inv P cfg d live (some f) fl now with ⟨_, _, ha, _⟩ | ⟨tomb0, f', a, _, hf, _, _, heq⟩
+  · rw [ha] at hfull; cases hfull
+  · cases hf
+    rw [heq] at hfull ⊢
+    have ha : a = .full := hfull
+    subst ha
+    intro ta hta hst
+    have hta' : ta ∈ (process P f (Auth.full == Auth.revOnly) now
+        (prepare cfg (readState d live fl now) tomb0 now).1 (prepare cfg (readState d live fl now) tomb0 now).2).cur := hta
+    have hb : (Auth.full == Auth.revOnly) = false := by decide
+    rw [hb] at hta'
+    unfold process at hta'
+    simp only [Bool.false_eq_true, if_false] at hta'
+    unfold holdDown at hta'
+    obtain ⟨t0, _, hs⟩ := List.mem_filterMap.mp hta'
+    unfold holdStep at hs
+    by_cases hmem : ((sortByTag (fetchedMap f.all)).map (·.tag)).contains t0.key.tag = true
+    · have hk := holdStep_key (P := P) (tags := (sortByTag (fetchedMap f.all)).map (·.tag)) (now := now) (ta := t0) (ta' := ta)
+        (by unfold holdStep; exact hs)
+      unfold fetchedTags
+      rw [hk.1]
+      simpa using hmem
+    · exfalso
+      have hmem' : ((sortByTag (fetchedMap f.all)).map (·.tag)).contains t0.key.tag = false := by simpa using hmem
+      simp only [hmem', Bool.not_false, if_true] at hs
+      cases h0 : t0.st <;> simp [h0] at hs
+      · subst hs; simp at hst
+      · obtain ⟨_, hs⟩ := hs; subst hs; rw [h0] at hst; cases hst
+      · subst hs; rw [h0] at hst; cases hst
+      · subst hs; rw [h0] at hst; cases hst
+
 /-! ## the consumer side: what clients get -/
 
 /-- **serving_fails_closed.** With no trust anchor a validating lookup is never
@@ -1457,5 +1514,20 @@ example : (runHist {} [kA, kB] {} [.run (some revokeA) {} none, .tick (1200 * 86
 example : (autoTA {} [kA, { kB with tag := 1128 }] {} [kA, { kB with tag := 1128 }]
     (some { keys := [{ kB with tag := 1128 }, kA'], signers := [{ kB with tag := 1128 }, kA'] }) {} 0).revoked = [1] := by
   decide
+
+-- a pending key absent from one uneventful accepted refresh (seeded C09-20): gone from the state file, and a new
+-- 30-day hold-down starts when it is published again (not trusted 31 days after the FIRST sighting)
+example : (runHist {} [kA] {} [.run (some { keys := [kA, kP], signers := [kA] }) {} none, .tick (10 * 86400),
+    .run (some { keys := [kA], signers := [kA] }) {} none]).disk.state = .ok [⟨kA, .valid, 0⟩] := by decide
+example : (runHist {} [kA] {} [.run (some { keys := [kA, kP], signers := [kA] }) {} none, .tick (10 * 86400),
+    .run (some { keys := [kA], signers := [kA] }) {} none, .tick 86400,
+    .run (some { keys := [kA, kP], signers := [kA] }) {} none, .tick (20 * 86400 + 120),
+    .run (some { keys := [kA, kP], signers := [kA] }) {} none]).proc = some [kA] := by decide
+-- revocation-only answer with the REVOKE form of a second anchor that its key never signed (seeded C09-19)
+example : (autoTA {} [kA, kB] {} [kA, kB]
+    (some { keys := [kA', { kB with revoke := true, tag := 2128 }], signers := [kA'] }) {} 0).revoked = [1] := by decide
+-- a rolled-in (not configured) anchor revoked in the first refresh after a restart, both writes failing (seeded C09-21)
+example : (autoTA {} [kB] { state := .ok [⟨kB, .valid, 0⟩, ⟨kA, .valid, 0⟩], tomb := .ok [] } (startupKeys [kB] { state := .ok [⟨kB, .valid, 0⟩, ⟨kA, .valid, 0⟩], tomb := .ok [] })
+    (some revokeA) { tombWrite := true, stateWrite := true } 0).live = [] := by decide
 
 end SdnsVerif.Props.C09
